@@ -82,7 +82,10 @@ def same_source(ctx):
         fact = f"{len(adds)} add call(s), {len(convs)} conversion(s) to L for display"
         if adds and convs:
             a = adds[0][0]
-            ok = any(same_value(c.args[1], a.args[1]) or strip_refs(c.args[1]) is strip_refs(a.args[1]) for c, s, b in convs) \
+            # every add of the operation (a second one in an `except` branch that tops up "to the brim" included) adds the
+            # amount the instruction states
+            ok = all(any(same_value(c.args[1], a_.args[1]) or strip_refs(c.args[1]) is strip_refs(a_.args[1]) for c, s, b in convs)
+                     for a_, s_, b_ in adds) \
                 and all(same_value(c.args[0], a.args[0]) or strip_refs(c.args[0]) is strip_refs(a.args[0]) for c, s, b in convs)
             fact = f"printed volume = convert({show(convs[0][0].args[0], 15)}, {show(convs[0][0].args[1], 40)}, 'L'); added = {show(a.args[1], 40)}"
         ctx.ob('C19.R3', fi, (convs[0][1].lineno if convs else fi.node.lineno),
